@@ -194,6 +194,14 @@ pub const SCOPE_STATEMENTS: &[&str] = &[
     "repeat local b = a #B until b or true",
     "do local a = a #B end",
     "local t = {a = a, b = function(a) return a end} E1(t.a, t.b(2))",
+    "do local function u() return 1 end E1(u()) end local z, y, w = 2, 3, 4 E1(u, z, y, w)",
+    "do local function helper() return 1 end E1(helper()) end local p, q, r, s = 1, 2, 3, 4 E1(helper, p, q, r, s)",
+    "if u then local function b() return a end E1(b()) end local k, l = 5, 6 E1(b, k, l)",
+    "do local u = E1() E1(u) end local z, y = 2, 3 E1(u, z, y)",
+    "for u = 1, 1 do E1(u) end local z, y = 2, 3 E1(u, z, y)",
+    "local function f(u) return u end local z, y = f(1), 3 E1(u, z, y)",
+    "do local a, b, c, d = 1, 2, 3, 4 E1(a, b, c, d) end local e, f, g, h = 5, 6, 7, 8 E1(a, b, c, d, e, f, g, h)",
+    "do local function a() end do local function b() end end end local c, d, e = 1, 2, 3 E1(a, b, c, d, e)",
 ];
 
 /// all sequences of `n` statements; nested bodies (`#B`) draw from sequences of length `n-1` (or a single E1(a) at depth 0)
